@@ -266,6 +266,19 @@ func checkC12(c c12Case) verdict {
 	keep := func(s, what string) {
 		kept = append(kept, retained{got: s, copy: strings.Clone(s), what: what})
 	}
+	// URLs handed to the parser earlier in the history, and URLs the builders returned: later calls must leave both alone
+	type keptURL struct {
+		u      *url.URL
+		before url.URL
+		text   string
+		what   string
+	}
+	var keptURLs []keptURL
+	keepURL := func(u *url.URL, what string) {
+		if u != nil {
+			keptURLs = append(keptURLs, keptURL{u: u, before: *u, text: u.String(), what: what})
+		}
+	}
 	labels := []string{}
 	nt := false
 	for i, st := range c.Steps {
@@ -395,6 +408,7 @@ func checkC12(c c12Case) verdict {
 			}
 			if u != nil {
 				keep(u.String(), "URL text")
+				keepURL(u, "URL returned by "+st.Op)
 			}
 		case "ParseOTPAuthURL":
 			// type in any letter case (also unsupported ones), odd labels, user info, fragment: whatever the outcome, the URL stays as it was
@@ -411,7 +425,31 @@ func checkC12(c c12Case) verdict {
 				if !reflect.DeepEqual(before, *u) || (u.User != nil && *u.User != ui) {
 					return bad(true, labels, "step %d ParseOTPAuthURL modified the caller's URL: %+v -> %+v", i, before, *u)
 				}
+				keepURL(u, "URL that was passed to ParseOTPAuthURL")
 				if p != nil {
+					// what a caller does with a parse result: hand it (its value) to the URL builders. They get a URLParam, not
+					// the URL: the parsed URL stays as it was, each call returns a URL of its own, and an earlier result does
+					// not change when the next one is built
+					q := *p
+					q.AccountName += "+1"
+					u2, _ := otp.GenerateTOTPURL(*p)
+					keepURL(u2, "URL returned by GenerateTOTPURL(parse result)")
+					u3, _ := otp.GenerateHOTPURL(q)
+					keepURL(u3, "URL returned by GenerateHOTPURL(parse result)")
+					if u2 != nil && (u2 == u || u2 == u3) || u3 != nil && u3 == u {
+						return bad(true, labels, "step %d: a URL builder called with the result of ParseOTPAuthURL returned the very *url.URL that had been parsed, or the same one twice (%p %p %p)", i, u, u2, u3)
+					}
+					if !reflect.DeepEqual(before, *u) {
+						return bad(true, labels, "step %d: building a URL from the result of ParseOTPAuthURL modified the URL that had been parsed: %+v -> %+v", i, before, *u)
+					}
+					if u2 != nil {
+						u2.Host, u2.Path, u2.RawQuery = "scribbled", "/scribbled", "x=1"
+						if !reflect.DeepEqual(before, *u) {
+							return bad(true, labels, "step %d: the URL returned by GenerateTOTPURL(parse result) shares memory with the URL that had been parsed", i)
+						}
+						keptURLs = keptURLs[:len(keptURLs)-2]
+						keepURL(u3, "URL returned by GenerateHOTPURL(parse result)")
+					}
 					// the result must not be wired to the argument: changing it leaves the URL alone
 					p.Issuer, p.AccountName, p.Secret = "x", "y", "z"
 					if !reflect.DeepEqual(before, *u) {
@@ -528,6 +566,11 @@ func checkC12(c c12Case) verdict {
 		for _, r := range kept {
 			if r.got != r.copy {
 				return bad(true, labels, "a retained %s changed after step %d: %q -> %q", r.what, i, r.copy, r.got)
+			}
+		}
+		for _, k := range keptURLs {
+			if !reflect.DeepEqual(k.before, *k.u) || k.u.String() != k.text {
+				return bad(true, labels, "a %s changed after step %d (%s): %q -> %q", k.what, i, st.Op, k.text, k.u.String())
 			}
 		}
 	}
